@@ -13,7 +13,7 @@ THEOREMS = ["H5V.Props.C16." + t for t in [
     "C16_attrs_sublist", "C16_attr_dropped_only_if", "C16_isDeclLike_is_decl", "C16_isDeclLike_fixed",
     "C16_tok_dropped_only_if_partial", "C16_tok_dropped_only_if_fixed", "C16_tok_no_dup_qname_fixed",
     "C16_witness_item14", "C16_witness_dup_decl_reversed",
-    "C16_splitQName_split", "C16_splitQName_some", "C16_splitQName_none"]]
+    "C16_splitQName_split", "C16_splitQName_some", "C16_splitQName_none", "C16_resolve_source_fixed"]]
 TRUSTED = [
     "Lean 4 kernel; axioms ⊆ {propext, Classical.choice, Quot.sound} (audited per run)",
     "hand-written model lean/H5V/Model/XmlTB.lean of xml5ever/src/tree_builder/mod.rs (token level) and of the "
